@@ -90,6 +90,10 @@ def gen_rounds(seed, tier, run):
         for ax in ("n", "z0", "z1"):
             out.append(f"argmax@i32 {arr(sh, [e % 5 for e in es])} {ax} z{rng.randint(0, 2)}")
             out.append(f"argmin@i32 {arr(sh, [e % 5 for e in es])} {ax} z{rng.randint(0, 2)}")
+    # lanes whose numbers of distinct values differ while their total fills the shape of the first (finding F29, fixed)
+    for a_ in ("a3x3:1,2,2,3,3,3,4,5,6", "a3x3:1,2,2,3,3,3,4,5,6", "a2x4:1,1,2,3,4,4,4,5", "a2x2x3:1,1,2,3,3,3,5,6,6,7,8,9", "a4x2:1,2,3,3,4,4,5,6"):
+        for ax in (0, 1, -1, 2, -2):
+            out.append(f"unique {a_} z{ax}")
     impl, model = run(out)
     # the four kinds agree with each other (on the implementation's own results)
     again = []
